@@ -67,3 +67,33 @@ Definition mon_lv (c : lvcase) : bool :=
 Definition bad_corr_rd (cs : list rdcase) : list N := map rc_id (filter (fun c => negb (corr_rd c)) cs).
 Definition bad_monitor_rd (cs : list rdcase) : list N := map rc_id (filter (fun c => negb (mon_rd c)) cs).
 Definition bad_monitor_lv (cs : list lvcase) : list N := map lc_id (filter (fun c => negb (mon_lv c)) cs).
+
+(* ---------- front-ends ---------- *)
+Inductive fevia := FHttp (s : rspec) | FFuse (o n : Z).
+(* observed: the HTTP status (0 for a FUSE read that succeeded, 1 for one that failed, 9 for one that did not return); the first byte the
+   reply claims (Content-Range, 0 for a 200, the offset asked for FUSE); the number of bytes in the body;
+   last byte and size of Content-Range (-1 without one); whether the body equals the torrent's content at
+   the file's offset + the first byte claimed *)
+Record fereq := mk_fereq { fq_via : fevia; fq_flen : Z; fq_status : Z; fq_start : Z; fq_cnt : Z;
+                           fq_crend : Z; fq_crsize : Z; fq_data_ok : bool }.
+Record fecase := mk_fecase { fc_id : N; fc_reqs : list fereq }.
+
+Definition corr_fereq (q : fereq) : bool :=
+  match fq_via q with
+  | FHttp s =>
+    negb (rspec_ok s) ||
+    let '(st, a, cnt) := http_range (fq_flen q) s in
+    (fq_status q =? st) &&
+    ((st =? 416) || ((fq_start q =? a) && (fq_cnt q =? cnt)))
+  | FFuse o n => (fq_status q =? 0) && (fq_start q =? o) && (fq_cnt q =? fuse_read (fq_flen q) o n)
+  end.
+(* on the observation alone: the body is the file's content at the place the reply names, it lies inside
+   the file, and a Content-Range describes exactly the body *)
+Definition mon_fereq (q : fereq) : bool :=
+  negb (fq_status q =? 9) &&
+  ((fq_status q =? 416) || (fq_status q =? 1) ||
+   (fq_data_ok q && (0 <=? fq_start q) && (0 <=? fq_cnt q) && ((fq_cnt q =? 0) || (fq_start q + fq_cnt q <=? fq_flen q)))) &&
+  (negb (fq_status q =? 206) || ((fq_crend q =? fq_start q + fq_cnt q - 1) && (fq_crsize q =? fq_flen q))) &&
+  (negb (fq_status q =? 200) || (fq_cnt q =? fq_flen q)).
+Definition bad_corr_fe (cs : list fecase) : list N := map fc_id (filter (fun c => negb (forallb corr_fereq (fc_reqs c))) cs).
+Definition bad_monitor_fe (cs : list fecase) : list N := map fc_id (filter (fun c => negb (forallb mon_fereq (fc_reqs c))) cs).
